@@ -5,6 +5,8 @@ import CookModel.Lemmas.SimEvents
 import CookModel.Lemmas.TrailingSpace
 import CookModel.Lemmas.SimEventsFull
 import CookModel.Lemmas.SimBlankLines
+import CookModel.Lemmas.RecipeSimStatic
+import CookModel.Lemmas.RecipeSimBlank
 /-
   C17  Line endings, comments and blank space do not change the recipe.
 
@@ -385,6 +387,128 @@ theorem C17_extra_blank_lines_events {α : Type} [Arith α] (cs : CharSpec) (hu 
       ((blocksOf Y).foldl (fun a b => runBlock cs ext oldStyle b a.1 a.2) acc).1.toList :=
   foldl_runBlock_relF hu ext oldStyle (blocks_extra_empty_line_rel tokSim_kindPres L hL E0 E X hE0 hE Y hY) he
 
+/-! ### The lift through the analysis pass (`RecipeCollector::parse_events`)
+
+  `ColSim uws c' c` (Lemmas/RecipeSim.lean) relates two collector states with the same recipe:
+  EQUAL sections / current section / open block (so step items and text items are equal outright,
+  no normalisation needed: `EvSim` gives equal `Text::text()`), EQUAL ingredient, cookware, timer and
+  inline-quantity tables (names, aliases, quantities, units, notes, modifiers, relations), EQUAL
+  `>>` metadata map, servings, modes and step counter; diagnostics of the same severity, stage, kind
+  and number of labels in the same order (`DiagSim`; label positions shift); `locations.metadata`
+  with the same keys in the same order; the same number of recorded old-style-metadata spans and
+  component locations; front matter present on both sides or on neither (same YAML text up to the
+  CRLF conversion, `FmSim`).  The panic flag is not compared (C03 proves it is never set).
+  `ResSim uws r' r`: both results have an output or neither, outputs `ColSim`-related, reports
+  `DiagSim`-related one by one. -/
+
+/-- what `ColSim` guarantees about the recipe content -/
+theorem C17_colSim_content {α : Type} [Arith α] (uws : Char → Bool) (c' c : Col α) (h : ColSim uws c' c) :
+    c'.sections = c.sections ∧ c'.cur = c.cur ∧ c'.ingredients = c.ingredients ∧ c'.cookware = c.cookware ∧
+    c'.timers = c.timers ∧ c'.inlineQ = c.inlineQ ∧ c'.metaMap = c.metaMap ∧ c'.servings = c.servings ∧
+    c'.frontMatter.isSome = c.frontMatter.isSome ∧
+    c'.diags.toList.map (fun d => (d.sev, d.stage, d.kind, d.labels.length)) =
+      c.diags.toList.map (fun d => (d.sev, d.stage, d.kind, d.labels.length)) := by
+  refine ⟨h.sections, h.cur, h.ingredients, h.cookware, h.timers, h.inlineQ, h.metaMap, h.servings, ?_, ?_⟩
+  · have := h.frontMatter.isNone
+    cases h1 : c'.frontMatter <;> cases h2 : c.frontMatter <;> simp [h1, h2] at this ⊢
+  · exact h.diags.map_eq _ _ (fun a b hab => by obtain ⟨h1, h2, h3, h4⟩ := hab; simp only [h1, h2, h3, h4])
+
+/-- what `ResSim` guarantees: the same validity (an output on both sides or on neither, and
+    reports with the same severities — hence an error in both or in neither), same kinds in the
+    same order -/
+theorem C17_resSim_validity {α : Type} [Arith α] (uws : Char → Bool) (r' r : AnalysisResult α) (h : ResSim uws r' r) :
+    r'.output.isSome = r.output.isSome ∧
+    r'.diags.toList.map (fun d => (d.sev, d.stage, d.kind, d.labels.length)) =
+      r.diags.toList.map (fun d => (d.sev, d.stage, d.kind, d.labels.length)) := h.valid
+
+/-- **One event.**  For every environment (character table, extensions, unit lookup, standard
+    metadata verdicts, case folding) and ANY two source texts: `process_event` on `EvSim`-related
+    events takes `ColSim`-related collector states to `ColSim`-related states — every collector
+    function (`ingredient`, `cookware`, `timer`, `resolve_reference`, `resolve_intermediate_ref`,
+    the unit / note / quantity checks of references, `metadata` with modes and standard keys,
+    `time_override_check`, step text with inline quantities, block start / end, sections) reads the
+    events only through what `EvSim` preserves, and the source text only for label positions.
+    The single exception is excluded by `¬ TextModeSliceAt ev c`: a component event that meets an
+    open TEXT buffer (define mode `text`), where `&input[span]` is copied into the text. -/
+theorem C17_analysis_event_step {α : Type} [Arith α] (env : Env) (input' input : Str) (ev' ev : Ev α)
+    (h : EvSim env.cs.uws ev' ev) (c' c : Col α) (hc : ColSim env.cs.uws c' c) (hns : ¬ TextModeSliceAt ev c) :
+    ColSim env.cs.uws (processEvent env input' ev' c').2 (processEvent env input ev c).2 :=
+  processEvent_sim env input' input h hc hns
+
+/-- **The analysis respects `EvSim`.**  For every environment and any two source texts,
+    `parse_events` maps `EvSim`-related event lists to `ResSim`-related results: the same recipe
+    (`ColSim`: sections, steps, items, text items, component tables, metadata map all equal), the
+    same validity, diagnostics of the same kinds in the same order.  Hypothesis `TextModeFree env
+    input evs {}`: along the analysis of `evs` no component event meets an open text buffer (define
+    mode `text` of the MODES extension never copies source text); it is stated on ONE side only.
+    `C17_text_mode_free_modes_off` discharges it for parser output when MODES is off. -/
+theorem C17_analysis_respects_evsim {α : Type} [Arith α] (env : Env) (input' input : Str) (evs' evs : List (Ev α))
+    (h : LRel (EvSim env.cs.uws) evs' evs) (hf : TextModeFree env input evs {}) :
+    ResSim env.cs.uws (parseEvents env input' evs') (parseEvents env input evs) :=
+  parseEvents_sim env input' input h hf
+
+/-- without the MODES extension the events of the pull parser (well bracketed: components only
+    inside step blocks) never reach the text-mode branch, whatever the input is -/
+theorem C17_text_mode_free_modes_off {α : Type} [Arith α] (env : Env) (hm : env.ext.has Gen.EXT_MODES = false)
+    (s : List Char) : TextModeFree env s (pullEvents (α := α) env.cs env.ext s).1.toList {} :=
+  pullEvents_textModeFree env hm s
+
+/-- **CRLF conversion leaves the parsed recipe unchanged (partial: text define mode).**  For every
+    environment whose character table satisfies `CrlfSpec` and `UwsNL` (true of the real tables)
+    and every backslash-free input `s` whose analysis never copies a component's source into a
+    text-mode block (`TextModeFree`): `parse (crlf s)` and `parse s` are `ResSim`-related — the same
+    sections, steps and items with EQUAL text items, the same ingredient / cookware / timer /
+    inline-quantity tables, the same metadata map, the same validity, diagnostics of the same kinds
+    in the same order.  MISSING for the full clause: inputs that switch to `[mode]: text` and then
+    contain components.  There the statement with EQUAL texts is false (a component spanning a line
+    break is copied with `\r\n` instead of `\n`); equality up to white space would need the spans
+    of the two event lists to be related, which `EvSim` deliberately does not do. -/
+theorem C17_crlf_recipe_partial {α : Type} [Arith α] (env : Env) (hcs : CrlfSpec env.cs) (hu : UwsNL env.cs)
+    (s : List Char) (hs : CrlfSafe s)
+    (hf : TextModeFree env s (pullEvents (α := α) env.cs env.ext s).1.toList {}) :
+    ResSim env.cs.uws (parseRecipe (α := α) env (crlf s)) (parseRecipe (α := α) env s) :=
+  crlf_parseRecipe_sim env hcs hu s hs hf
+
+/-- **CRLF conversion, every backslash-free input, MODES extension off.**  No side condition on
+    the input besides `CrlfSafe`: same recipe, same validity, same diagnostics up to positions. -/
+theorem C17_crlf_recipe_modes_off {α : Type} [Arith α] (env : Env) (hcs : CrlfSpec env.cs) (hu : UwsNL env.cs)
+    (hm : env.ext.has Gen.EXT_MODES = false) (s : List Char) (hs : CrlfSafe s) :
+    ResSim env.cs.uws (parseRecipe (α := α) env (crlf s)) (parseRecipe (α := α) env s) :=
+  crlf_parseRecipe_sim env hcs hu s hs (pullEvents_textModeFree env hm s)
+
+/-- in particular: equally valid, and literally the same sections and tables when valid -/
+theorem C17_crlf_recipe_valid_modes_off {α : Type} [Arith α] (env : Env) (hcs : CrlfSpec env.cs) (hu : UwsNL env.cs)
+    (hm : env.ext.has Gen.EXT_MODES = false) (s : List Char) (hs : CrlfSafe s) :
+    (parseRecipe (α := α) env (crlf s)).output.isSome = (parseRecipe (α := α) env s).output.isSome ∧
+    ∀ c' c, (parseRecipe (α := α) env (crlf s)).output = some c' → (parseRecipe (α := α) env s).output = some c →
+      c'.sections = c.sections ∧ c'.ingredients = c.ingredients ∧ c'.cookware = c.cookware ∧
+      c'.timers = c.timers ∧ c'.inlineQ = c.inlineQ ∧ c'.metaMap = c.metaMap := by
+  have h := C17_crlf_recipe_modes_off (α := α) env hcs hu hm s hs
+  refine ⟨h.valid.1, fun c' c e' e => ?_⟩
+  have ho := h.output
+  rw [e', e] at ho
+  have hc : ColSim env.cs.uws c' c := ho
+  exact ⟨hc.sections, hc.ingredients, hc.cookware, hc.timers, hc.inlineQ, hc.metaMap⟩
+
+/-- **Extra blank / comment-only lines leave the parsed recipe unchanged (token level).**  In the
+    setting of `C17_extra_blank_lines_events` (stream `L E0 E X` against `Y` ≈ `L E0 X`), running the
+    analysis on the two event lists gives `ResSim`-related results, for any two source texts, under
+    the same text-mode proviso as above (stated on the side without the extra line). -/
+theorem C17_extra_blank_lines_recipe_partial {α : Type} [Arith α] (env : Env) (hu : UwsNL env.cs) (oldStyle : Bool)
+    (input' input : Str)
+    (L : List (List Tok)) (hL : ∀ l ∈ L, IsLine l) (E0 E X : List Tok)
+    (hE0 : EmptyLine E0) (hE : EmptyLine E) (Y : List Tok) (hY : LRel TokSim (L.flatten ++ (E0 ++ X)) Y)
+    (acc' acc : Array (Ev α) × Option String) (he : LRel (EvSim env.cs.uws) acc'.1.toList acc.1.toList)
+    (hf : TextModeFree env input
+      ((blocksOf Y).foldl (fun a b => runBlock env.cs env.ext oldStyle b a.1 a.2) acc).1.toList {}) :
+    ResSim env.cs.uws
+      (parseEvents env input'
+        ((blocksOf (L.flatten ++ (E0 ++ (E ++ X)))).foldl (fun a b => runBlock env.cs env.ext oldStyle b a.1 a.2) acc').1.toList)
+      (parseEvents env input
+        ((blocksOf Y).foldl (fun a b => runBlock env.cs env.ext oldStyle b a.1 a.2) acc).1.toList) :=
+  parseEvents_sim env input' input
+    (C17_extra_blank_lines_events env.cs hu env.ext oldStyle L hL E0 E X hE0 hE Y hY acc' acc he) hf
+
 /-! non-vacuity: a character table satisfying `CrlfSpec`, an input satisfying `CrlfSafe` on which
     `crlf` does something, and the excluded shape -/
 
@@ -452,5 +576,73 @@ example : lexFrom toyCharSpec 2 ['\n'] = [⟨.newline, ['\n'], 2⟩] := by
 example : lexFrom toyCharSpec 3 ['-', '-', 'x', '\n'] = [⟨.lineComment, ['-', '-', 'x'], 3⟩, ⟨.newline, ['\n'], 6⟩] := by
   simp [lexFrom_cons, lexOne, lexFrom, utf8Len]
   decide
+
+/-- **Extra blank / comment-only line in the source: same events** (inputs without front matter).
+    In the setting of `C17_extra_blank_line_source` (source `u e0 x`, a further blank or comment-only
+    line `e` inserted after `e0`), when neither variant has a front-matter block, the whole
+    `PullParser` run yields `EvSim`-related event lists (all spans behind the insertion shift). -/
+theorem C17_extra_blank_line_source_events {α : Type} [Arith α] (cs : CharSpec) (hu : UwsNL cs) (ext : Ext)
+    (u e0 e x : List Char) (L : List (List Tok)) (hlu : lex cs u = L.flatten) (hL : ∀ l ∈ L, IsLine l)
+    (hE0 : EmptyLine (lexFrom cs (utf8Len u) e0)) (hE : EmptyLine (lexFrom cs (utf8Len u + utf8Len e0) e))
+    (h1 : parseFrontmatter cs (u ++ (e0 ++ (e ++ x))) = none) (h2 : parseFrontmatter cs (u ++ (e0 ++ x)) = none) :
+    LRel (EvSim cs.uws) (pullEvents (α := α) cs ext (u ++ (e0 ++ (e ++ x)))).1.toList
+      (pullEvents (α := α) cs ext (u ++ (e0 ++ x))).1.toList :=
+  blank_line_source_events cs hu ext u e0 e x L hlu hL hE0 hE h1 h2
+
+/-- **… and the same recipe (partial: no front matter, text define mode excluded).**  `parse` of
+    the source with the extra line and of the source without it are `ResSim`-related: same
+    sections, steps, items, EQUAL text items, same tables and metadata map, same validity,
+    diagnostics of the same kinds in the same order.  MISSING: inputs with a front-matter block
+    (the front-matter split is not related for insertions, only for CRLF), and text define mode
+    with components (there the copied source slice should be the same text; proving it needs the
+    spans of the two runs related by the shift, which `EvSim` does not record). -/
+theorem C17_extra_blank_line_source_recipe_partial {α : Type} [Arith α] (env : Env) (hu : UwsNL env.cs)
+    (u e0 e x : List Char) (L : List (List Tok)) (hlu : lex env.cs u = L.flatten) (hL : ∀ l ∈ L, IsLine l)
+    (hE0 : EmptyLine (lexFrom env.cs (utf8Len u) e0)) (hE : EmptyLine (lexFrom env.cs (utf8Len u + utf8Len e0) e))
+    (h1 : parseFrontmatter env.cs (u ++ (e0 ++ (e ++ x))) = none) (h2 : parseFrontmatter env.cs (u ++ (e0 ++ x)) = none)
+    (hf : TextModeFree env (u ++ (e0 ++ x)) (pullEvents (α := α) env.cs env.ext (u ++ (e0 ++ x))).1.toList {}) :
+    ResSim env.cs.uws (parseRecipe (α := α) env (u ++ (e0 ++ (e ++ x)))) (parseRecipe (α := α) env (u ++ (e0 ++ x))) :=
+  blank_line_source_recipe env hu u e0 e x L hlu hL hE0 hE h1 h2 hf
+
+/-- the same with the MODES extension off: no proviso about text mode -/
+theorem C17_extra_blank_line_source_recipe_modes_off {α : Type} [Arith α] (env : Env) (hu : UwsNL env.cs)
+    (hm : env.ext.has Gen.EXT_MODES = false)
+    (u e0 e x : List Char) (L : List (List Tok)) (hlu : lex env.cs u = L.flatten) (hL : ∀ l ∈ L, IsLine l)
+    (hE0 : EmptyLine (lexFrom env.cs (utf8Len u) e0)) (hE : EmptyLine (lexFrom env.cs (utf8Len u + utf8Len e0) e))
+    (h1 : parseFrontmatter env.cs (u ++ (e0 ++ (e ++ x))) = none) (h2 : parseFrontmatter env.cs (u ++ (e0 ++ x)) = none) :
+    ResSim env.cs.uws (parseRecipe (α := α) env (u ++ (e0 ++ (e ++ x)))) (parseRecipe (α := α) env (u ++ (e0 ++ x))) :=
+  blank_line_source_recipe env hu u e0 e x L hlu hL hE0 hE h1 h2 (pullEvents_textModeFree env hm _)
+
+/-- non-vacuity of `TextModeFree` on a concrete stream (a timer inside a step block), by direct evaluation -/
+theorem C17_text_mode_free_of_wb_example :
+    TextModeFree (α := Rat) ⟨toyCharSpec, ⟨0⟩, fun _ => none, fun _ _ => .ok, fun c => [c], 0⟩ []
+      [.start .step, .timer ⟨⟨none, none⟩, ⟨0, 0⟩⟩, .stop .step] {} := by
+  simp only [TextModeFree]
+  refine ⟨fun h => (by cases h.1), fun h => ?_, fun h => (by cases h.1), trivial⟩
+  obtain ⟨_, buf, hb⟩ := h
+  simp [processEvent, A_modify] at hb
+
+/-! non-vacuity for the recipe-level theorems: an environment without the MODES extension whose
+    character table satisfies `CrlfSpec` and `UwsNL`; the excluded situation exists (a component event
+    meeting an open text buffer) and an ordinary one is not excluded -/
+def C17_toyEnv : Env := ⟨toyCharSpec, ⟨0⟩, fun _ => none, fun _ _ => .ok, fun c => [c], 0⟩
+example : C17_toyEnv.ext.has Gen.EXT_MODES = false := by decide
+example : CrlfSpec C17_toyEnv.cs := ⟨by decide, by decide, by decide, by decide⟩
+example : UwsNL C17_toyEnv.cs := ⟨by decide, by decide⟩
+example : TextModeSliceAt (α := Rat) (.timer ⟨⟨none, none⟩, ⟨0, 0⟩⟩) { block := some (.text []) } :=
+  ⟨rfl, [], rfl⟩
+example : ¬ TextModeSliceAt (α := Rat) (.timer ⟨⟨none, none⟩, ⟨0, 0⟩⟩) { block := some (.step []) } := by
+  rintro ⟨_, buf, h⟩; cases h
+example : TextModeFree (α := Rat) C17_toyEnv [] [.start .step, .timer ⟨⟨none, none⟩, ⟨0, 0⟩⟩, .stop .step] {} :=
+  C17_text_mode_free_of_wb_example
+/-- `ColSim` / `ResSim` are inhabited by runs that differ: the event lists `[Warning d']`, `[Warning d]`
+    with different label positions -/
+example : ResSim (α := Rat) C17_toyEnv.cs.uws
+    (parseEvents C17_toyEnv [] [.warning ⟨.warning, .parse, "k", [⟨1, 2⟩]⟩])
+    (parseEvents C17_toyEnv ['x'] [.warning ⟨.warning, .parse, "k", [⟨5, 9⟩]⟩]) :=
+  C17_analysis_respects_evsim C17_toyEnv [] ['x'] _ _
+    (.cons (EvSim.mk_warning ⟨rfl, rfl, rfl, rfl⟩) .nil) (by
+      simp only [TextModeFree]
+      exact ⟨fun h => (by cases h.1), trivial⟩)
 
 end Cook
